@@ -1302,7 +1302,12 @@ func walkObjectValues(v reflect.Value, fn func(reflect.Value)) {
 		}
 	case jtypes.IsStruct(v):
 		for i, N := 0, v.NumField(); i < N; i++ {
-			fn(v.Field(i))
+			// Skip unexported fields (e.g. those of the
+			// function objects): their values cannot be
+			// used outside the reflect package.
+			if f := v.Field(i); f.CanInterface() {
+				fn(f)
+			}
 		}
 	}
 }
